@@ -210,7 +210,7 @@ fn count(v: &[u128], c: u128) -> usize {
 }
 
 /// query arguments for a tree over `v`
-pub fn tree_queries(r: &mut Rng, c: &mut Case, v: &[u128], bits: u32, budget: usize, ops: &[&str]) {
+pub fn tree_queries(r: &mut Rng, c: &mut Case, v: &[u128], bits: u32, budget: usize, ops: &[&str], huff: bool) {
     let n = v.len();
     let tmax = ty_max(bits);
     let max = v.iter().copied().max().unwrap_or(0);
@@ -297,7 +297,7 @@ pub fn tree_queries(r: &mut Rng, c: &mut Case, v: &[u128], bits: u32, budget: us
                 'o: for round in 0..3 {
                     for &s in &syms {
                         let p = if round == 0 { *r.pick(&poss) } else if round == 1 { n } else { r.below(n as u64 + 2) as usize };
-                        if unchecked && (p > n || count(v, s) == 0 && !valid_plain(s, max, n)) {
+                        if unchecked && (p > n || count(v, s) == 0 && (huff || !valid_plain(s, max, n))) {
                             continue;
                         }
                         c.l(format!("q 0 {} {} {}", op, s, p));
@@ -407,7 +407,7 @@ pub fn tree_case(r: &mut Rng, o: &TreeOpts) -> Case {
     for e in o.extra {
         c.l(e.to_string());
     }
-    tree_queries(r, &mut c, &v, o.ty.1, o.budget, o.ops);
+    tree_queries(r, &mut c, &v, o.ty.1, o.budget, o.ops, o.fam == "hqwt" || o.fam == "hwt");
     c
 }
 
